@@ -14,6 +14,10 @@ class Unsupported(Exception):
     pass
 
 
+LEAK_ON_UNWIND = False
+BLOCK_SCOPE = True
+
+
 # ---------------------------------------------------------------- tokenizer
 TOK = re.compile(r'''
     (?P<ws>\s+)
@@ -1214,6 +1218,14 @@ class Emitter:
         # result types
         labels = {}
         entry_label = '%%%d' % f.first_unnamed
+        s.cleanup_only = set()
+        for (lbl0, ins0) in f.blocks:
+            for I0 in ins0:
+                if I0['op'] == 'phi':
+                    continue
+                if I0['op'] == 'landingpad' and all(k == 'cleanup' for k, _ in I0['clauses']):
+                    s.cleanup_only.add(lbl0)
+                break
         for bi, (lbl, ins) in enumerate(f.blocks):
             if lbl is None:
                 lbl = entry_label
@@ -1227,6 +1239,41 @@ class Emitter:
             lset.add(c)
             labels[k] = c
         s.labels = labels
+        # values used only inside their defining block become block-scoped C locals: CBMC then kills them at the
+        # end of the block instead of carrying (and phi-merging) ~all SSA values of the function at every join point
+        defblk = {}
+        usedblk = {}
+
+        def collect(o, acc):
+            if isinstance(o, tuple):
+                if len(o) >= 2 and o[0] == 'local' and isinstance(o[1], str):
+                    acc.add(o[1])
+                    return
+                for x in o:
+                    collect(x, acc)
+            elif isinstance(o, list):
+                for x in o:
+                    collect(x, acc)
+            elif isinstance(o, dict):
+                for k, x in o.items():
+                    if k != 'dest':
+                        collect(x, acc)
+        for lbl, ins in f.blocks:
+            for I in ins:
+                if I['dest'] is not None:
+                    defblk[I['dest']] = (lbl, I['op'])
+                if I['op'] == 'phi':
+                    for (val, pred) in I['inc']:
+                        acc = set()
+                        collect(val, acc)
+                        for n_ in acc:
+                            usedblk.setdefault(n_, set()).add(pred)
+                else:
+                    acc = set()
+                    collect(I, acc)
+                    for n_ in acc:
+                        usedblk.setdefault(n_, set()).add(lbl)
+        blocal = {}
         # declare all dests
         for lbl, ins in f.blocks:
             for I in ins:
@@ -1243,7 +1290,12 @@ class Emitter:
                         at = I['ty'] if n == 1 else ArrTy(n, I['ty'])
                         decls.append('  %s;' % s.decl(at, s.loc[I['dest']] + '_mem'))
                         I['mem_depth'] = arr_depth(at)
-                    decls.append('  %s %s;' % (s.ctype(t), s.loc[I['dest']]))
+                    dl = '  %s %s;' % (s.ctype(t), s.loc[I['dest']])
+                    if BLOCK_SCOPE and I['op'] not in ('alloca', 'phi', 'invoke', 'landingpad') and \
+                            usedblk.get(I['dest'], set()) <= {lbl}:
+                        blocal.setdefault(lbl, []).append('  ' + dl)
+                    else:
+                        decls.append(dl)
         # first pointer type an i8* value is bitcast to (used to type heap allocations)
         s.cast_of = {}
         src_of = {}   # i8** value -> original typed pointer type it was bitcast from
@@ -1277,10 +1329,13 @@ class Emitter:
                 s.phis[lbl] = ph
         for lbl, ins in f.blocks:
             body.append('%s: ;' % labels[lbl])
+            body.append('  {')
+            body.extend(blocal.get(lbl, []))
             for I in ins:
                 if I['op'] == 'phi':
                     continue
                 s.emit_instr(I, lbl, body)
+            body.append('  }')
         rt = s.ctype(f.ret)
         out.append('%s %s(%s)\n{' % (rt, s.gname(f.name), ', '.join(params)))
         out.extend(decls)
@@ -1532,7 +1587,12 @@ class Emitter:
             body.append('  %s;' % call)
         if I['op'] == 'invoke':
             body.append('  if (ir2c_exc.active)')
-            s.edge(lbl, I['unwind'], body, '    ')
+            if LEAK_ON_UNWIND and I['unwind'] in s.cleanup_only:
+                # opt-in cut: a cleanup-only landing pad (destructors of locals, then resume) is skipped; the exception
+                # stays pending and propagates.  Only destructor side effects on exceptional paths are lost.
+                body.append('    ' + s.ret_default())
+            else:
+                s.edge(lbl, I['unwind'], body, '    ')
             body.append('  else')
             s.edge(lbl, I['normal'], body, '    ')
         elif not nounwind:
@@ -1734,6 +1794,10 @@ class Emitter:
 
 
 def main():
+    global LEAK_ON_UNWIND
+    if '--leak-on-unwind' in sys.argv:
+        LEAK_ON_UNWIND = True
+        sys.argv.remove('--leak-on-unwind')
     src = open(sys.argv[1]).read()
     mod = parse_module(src)
     em = Emitter(mod)
